@@ -114,13 +114,24 @@ class AbstractBlock(CborArray):
             valid = crc_value is None
         else:
             defn = AbstractBlock.CRC_DEFN[crc_type]
-            # Encode with a zero-valued CRC field
-            self.fields[self.crc_value_name] = defn['encode'](0)
-            pre_crc = cbor2.dumps(self.build())
-            crc_int = defn['func'](pre_crc)
-            valid = crc_value == defn['encode'](crc_int)
-            # Restore old value
-            self.fields[self.crc_value_name] = crc_value
+            wire_data = getattr(self, 'wire_data', None)
+            if wire_data is not None:
+                # A received block is checked over the octets as received,
+                # the CRC value is the final item of the block array
+                size = len(defn['encode'](0))
+                pre_crc = wire_data[:-size] + bytes(size)
+                valid = (
+                    wire_data[-size:] == crc_value
+                    and crc_value == defn['encode'](defn['func'](pre_crc))
+                )
+            else:
+                # Encode with a zero-valued CRC field
+                self.fields[self.crc_value_name] = defn['encode'](0)
+                pre_crc = cbor2.dumps(self.build())
+                crc_int = defn['func'](pre_crc)
+                valid = crc_value == defn['encode'](crc_int)
+                # Restore old value
+                self.fields[self.crc_value_name] = crc_value
 
         return valid
 
